@@ -42,6 +42,11 @@ var c13Programs = []struct{ name, prog, query, post string }{
 	{"consult", "spin :- spin.", "consult(loopdir).", ""},
 	{"consultinit", "spin :- spin.", "findall(x, consult(loopinit), _).", ""},
 	{"ensureloaded", "spin :- spin.", "EXEC::- ensure_loaded(nested).", ""},
+	// include/1 cycles through two and three files: each load must END (permission_error) - file inclusion is
+	// plain recursion in the loader, nothing polls the context there - so that the loop around it stays
+	// cancellable
+	{"includecycle2", "spin :- catch(consult(cyca), _, true), spin.", "spin.", ""},
+	{"includecycle3", "spin :- catch(consult(cycx), _, true), spin.", "spin.", ""},
 	// built-ins walking CYCLIC lists (created by an unchecked unification) with and without a bound on
 	// the walk: each call must come back (error, failure) so that the loop around it stays cancellable
 	{"lengthcyclic", "spin :- \\+ (L = [a|L], length(L, 4611686018427387904)), spin.", "spin.", ""},
@@ -103,6 +108,11 @@ var c13Files = fstest.MapFS{
 	"loopdir.pl":  {Data: []byte(":- spin.\n")},
 	"loopinit.pl": {Data: []byte(":- initialization(spin).\n")},
 	"nested.pl":   {Data: []byte(":- ensure_loaded(loopdir).\n")},
+	"cyca.pl":     {Data: []byte("a1.\n:- include(cycb).\n")},
+	"cycb.pl":     {Data: []byte("b1.\n:- include(cyca).\n")},
+	"cycx.pl":     {Data: []byte(":- include(cycy).\n")},
+	"cycy.pl":     {Data: []byte(":- include(cycz).\n")},
+	"cycz.pl":     {Data: []byte(":- include(cycx).\n")},
 }
 
 func genC13(r *rand.Rand, n int, tier string) []string {
